@@ -222,6 +222,33 @@ def native_first(ck, big=False, failing=False):
     return {"violated": False, "evaluations": out["evaluations"]}
 
 
+def processes_design(ck, b=None):
+    """worker processes receive a copy of the kernel object: the copy must carry the detector altitude of the original (33 km here)"""
+    import contextlib
+    import io
+
+    import dask
+    from nuspacesim.simulation.eas_optical.cphotang import CphotAng
+
+    fails = []
+    if b is None:
+        b = batch(np.random.default_rng(ck.seed), 16)
+    with np.errstate(all="ignore"), contextlib.redirect_stdout(io.StringIO()):
+        mp_ = 9
+        sub = [x[:mp_].copy() for x in b]
+        want = [CphotAng(33.0).run(*[x[j] for x in sub], None) for j in range(mp_)]
+        wd, wa = np.asarray([r[0] for r in want]), np.array([r[1] for r in want])
+        try:
+            with dask.config.set(scheduler="processes", num_workers=2):
+                d, a = CphotAng(33.0)(*[x.copy() for x in sub], None)
+            if not (np.array_equal(np.asarray(d), wd, equal_nan=True) and np.array_equal(np.asarray(a), wa, equal_nan=True)):
+                fails.append({"obligation": "bounded.schedulers", "clause": "batch == [run(x) for x in batch] under the multi-process scheduler for a detector away from the reference orbit (worker copies carry the detector altitude)",
+                              "input": {"scheduler": "processes", "num_workers": 2, "events": mp_, "detector_altitude": 33.0, "seed": ck.seed}, "observed": {"batch": np.asarray(d, float)[:3].tolist(), "one-at-a-time": wd[:3].tolist()}})
+        except Exception as ex:
+            fails.append({"obligation": "bounded.schedulers", "clause": "the batch evaluates under the multi-process scheduler", "input": {"scheduler": "processes", "detector_altitude": 33.0}, "observed": "raised %r" % ex})
+    return fails
+
+
 def bounded(ck, big=False):
     import contextlib
     import io
@@ -273,6 +300,8 @@ def bounded(ck, big=False):
             if not same:
                 fails.append({"obligation": "bounded.batch_sizes", "clause": "a batch of any size (1, one partition, partition boundaries) with a cloud model == [run(x, cloud) for x in batch], bit for bit",
                               "input": {"events": m_, "detector_altitude": 33.0, "cloud_model": "70 km for events 0 and 100, 6 km where lat > 0, none elsewhere", "seed": ck.seed}, "observed": obs})
+        fails.extend(processes_design(ck, b))
+        nev += 9
         # a single failing event surfaces as an error of the batch call
 
         class Fail(Exception):
